@@ -325,12 +325,18 @@ const IMP_MEDIA: &[&str] = &["", " screen", " screen and (w:1rpx)"];
 /// separators written between the parts of the rule: one line, every part on a line of its own, behind a multi-byte comment
 const IMP_LAYOUTS: &[(&str, &str)] = &[("", ""), ("", "\n  "), ("/*é😀*/\n", "\n")];
 
+/// what stands between the conditions and the semicolon: nothing, or something that is no condition (the rewrite of such an import is
+/// given up half-way; whatever is written then, the map describes the tokens that are in the output and no others)
+const IMP_TAILS: &[&str] = &["", " 5", " {}", " foo(b) screen"];
+
 pub fn import_sheet_count() -> u64 {
-    (IMP_LAYERS.len() * IMP_SUPPORTS.len() * IMP_MEDIA.len() * IMP_LAYOUTS.len() * 2) as u64
+    (IMP_LAYERS.len() * IMP_SUPPORTS.len() * IMP_MEDIA.len() * IMP_LAYOUTS.len() * 2 * IMP_TAILS.len()) as u64
 }
 
 pub fn import_sheet(i: u64) -> String {
     let mut k = i as usize;
+    let tail = IMP_TAILS[k % IMP_TAILS.len()];
+    k /= IMP_TAILS.len();
     let two = k % 2 == 1;
     k /= 2;
     let (head, sep) = IMP_LAYOUTS[k % IMP_LAYOUTS.len()];
@@ -341,7 +347,10 @@ pub fn import_sheet(i: u64) -> String {
     k /= IMP_SUPPORTS.len();
     let l = IMP_LAYERS[k % IMP_LAYERS.len()];
     let part = |x: &str| if x.is_empty() { String::new() } else { format!("{}{}", sep, x) };
-    let mut t = format!("{}@import \"a.wxss\"{}{}{};", head, part(l), part(sp), part(m));
+    let mut t = format!("{}@import \"a.wxss\"{}{}{}{};", head, part(l), part(sp), part(m), tail);
+    if !tail.is_empty() {
+        t.push_str(&format!("{}.d{{k:1rpx}}", sep));
+    }
     if two {
         t.push_str(&format!("{}@import url(b){}{};{}.c{{k:v}}", sep, part(l), part(m), sep));
     }
@@ -364,6 +373,38 @@ pub fn check_import_sheet(text: &str) -> Result<Vec<Problem>, String> {
         }
     }
     let act = actual(&run.normal);
+    // no entry without a token: every entry sits where a token (or a comment) of the output starts
+    {
+        let starts: std::collections::BTreeSet<u32> = act.iter().map(|a| utf16_offset(&run.normal, a.start)).collect();
+        let units: Vec<u16> = run.normal.encode_utf16().collect();
+        for m in run.map_normal.iter() {
+            let c = m.dst_col as usize;
+            let comment = c + 1 < units.len() && units[c] == '/' as u16 && units[c + 1] == '*' as u16;
+            if !starts.contains(&m.dst_col) && !comment {
+                problems.push(Problem { kind: if c >= units.len() { "entry-beyond-the-output".into() } else { "entry-where-no-token-starts".into() }, detail: format!("output {:?}: entry {:?}", run.normal, m) });
+                break;
+            }
+        }
+    }
+    // (the pairing below is meaningful in a balanced output only; an unbalanced one is C18's business)
+    {
+        // (counted on the text: the tokenizer closes open blocks at the end of the input by itself; the sheets of this space have no
+        // brackets inside strings or comments)
+        let mut depth: i64 = 0;
+        for ch in run.normal.chars() {
+            match ch {
+                '(' | '[' | '{' => depth += 1,
+                ')' | ']' | '}' => depth -= 1,
+                _ => {}
+            }
+            if depth < 0 {
+                return Ok(problems);
+            }
+        }
+        if depth != 0 {
+            return Ok(problems);
+        }
+    }
     let mut stack: Vec<(usize, T)> = vec![];
     for (idx, a) in act.iter().enumerate() {
         let closer = match &a.t {
